@@ -23,7 +23,8 @@ type ioScenario struct {
 
 // scenarios per property
 var ioScenarioNames = map[string][]string{
-	"C05": {"include-read"},
+	"C04": {"cmdline-include-read"},
+	"C05": {"include-read", "plain-include-read"},
 	"C06": {"exclude-read", "except-include-read"},
 	"C07": {"include-with-definitions-read"},
 	"C10": {"format-read", "format-include-read"},
@@ -31,7 +32,7 @@ var ioScenarioNames = map[string][]string{
 	"C12": {"update-assembly-read"},
 	"C13": {"renumber-read", "renumber-all-read"},
 	"C14": {"copyright-read", "copyright-list-dir"},
-	"C17": {"include-read", "format-read", "renumber-read", "copyright-read", "update-rules-read"},
+	"C17": {"include-read", "plain-include-read", "format-read", "renumber-read", "copyright-read", "update-rules-read"},
 }
 
 func ioCases(prop string) []*ioScenario {
@@ -62,6 +63,7 @@ func ioScenarioCheck(env *core.Env, prop string, sc *ioScenario) core.Verdict {
 		"regex-assembly/toolchain.yaml":                    crsToolchainYAML,
 		"regex-assembly/include/big.ra":                    "##!> define latedef LATE\nfirstincluded\nuses{{latedef}}\nuses{{enddef}}x\n" + ioFiller("inc", 9000) + "lastincluded\n##!> define enddef END\n",
 		"regex-assembly/exclude/bigx.ra":                   ioFiller("notthere", 9000) + "lastincluded\n",
+		"regex-assembly/include/plainbig.ra":               "firstincluded\n" + ioFiller("inc", 9000) + "lastincluded\n", // no definition anywhere
 		"regex-assembly/932100.ra":                         "  leadword\n##!> include big\n" + ioFiller("own", 9000) + "  tailword\n",
 		"rules/REQUEST-932-APPLICATION-ATTACK-RCE.conf":    rules,
 		"tests/regression/tests/REQUEST-932-X/932100.yaml": test,
@@ -74,6 +76,10 @@ func ioScenarioCheck(env *core.Env, prop string, sc *ioScenario) core.Verdict {
 	switch sc.Name {
 	case "include-read", "include-with-definitions-read":
 		args, stdin, poison = []string{"regex", "generate", "-"}, []byte("leadword\n##!> include big\ntailword\n"), "regex-assembly/include/big.ra"
+	case "plain-include-read":
+		args, stdin, poison = []string{"regex", "generate", "-"}, []byte("leadword\n##!> include plainbig\ntailword\n"), "regex-assembly/include/plainbig.ra"
+	case "cmdline-include-read":
+		args, stdin, poison = []string{"regex", "generate", "-"}, []byte("##!> cmdline unix\n  leadword\n  ##!> include plainbig\n  tailword\n##!<\n"), "regex-assembly/include/plainbig.ra"
 	case "exclude-read":
 		args, stdin, poison = []string{"regex", "generate", "-"}, []byte("leadword\n##!> include-except big bigx\ntailword\n"), "regex-assembly/exclude/bigx.ra"
 	case "except-include-read":
@@ -147,6 +153,9 @@ func ioScenarioCheck(env *core.Env, prop string, sc *ioScenario) core.Verdict {
 		}
 		wantYes := []string{"leadword", "tailword", "firstincluded", "usesLATE", "usesENDx", "inc0000entry", "inc0300entry"}
 		wantNo := []string{"uses{{enddef}}x", "uses{{latedef}}"}
+		if strings.Contains(string(stdin), "plainbig") {
+			wantYes, wantNo = []string{"leadword", "tailword", "firstincluded", "inc0000entry", "inc0300entry"}, nil
+		}
 		if strings.Contains(string(stdin), "include-except") {
 			wantNo = append(wantNo, "lastincluded")
 		} else {
